@@ -10,7 +10,7 @@
 (* directory entry, no "..") the kernel walk, realpath and DryRunRenamer's abspath key all yield    *)
 (* input directory ++ parts, so both renamers take the same branch, and [simulation_step] (DrySim)  *)
 (* re-establishes the relation after a successful rename.                                           *)
-From Tempren Require Import Base.Str Py.PathLib FS.Model FS.Lemmas FS.PlainPaths Pipe.Pipeline Pipe.DrySim.
+From Tempren Require Import Base.Str Py.PathLib FS.Model FS.Lemmas FS.PlainPaths Pipe.Pipeline Pipe.DestParent Pipe.DrySim.
 Open Scope N_scope.
 
 (* ---------- the statement's vocabulary --------------------------------------------------------- *)
@@ -776,6 +776,8 @@ Proof.
       rewrite (contained_dd s0 f np _ W0 Pdd), (contained_dd (w_fs wr) f np _ (sim_wf _ _ S) Pdd').
       destruct (is_prefix_path (pf_dir f) (removelast (pf_dir f ++ removelast (pp_parts (pf_rel f))))).
       2:{ intros Ed Er; inversion Ed; inversion Er; subst. fp_done. }
+      rewrite (dest_parent_test_generated fixed _ s0 f _ np G eq_refl (source_contained_rel s0 f W0 Ps)),
+              (dest_parent_test_generated fixed _ (w_fs wr) f _ np G eq_refl (source_contained_rel (w_fs wr) f (sim_wf _ _ S) (plain_rel_transfer _ _ _ _ (sim_skel _ _ S) Ps))).
       rewrite (parents_contained_dd s0 f np _ W0 Pdd), (parents_contained_dd (w_fs wr) f np _ (sim_wf _ _ S) Pdd').
       rewrite (source_contained_rel s0 f W0 Ps),
               (source_contained_rel (w_fs wr) f (sim_wf _ _ S) (plain_rel_transfer _ _ _ _ (sim_skel _ _ S) Ps)).
@@ -795,6 +797,8 @@ Proof.
       rewrite (contained_rel (w_fs wr) f np (sim_wf _ _ S) Pd' NLr).
       destruct (is_prefix_path (pf_dir f) (pf_dir f ++ pp_parts np)).
       2:{ intros Ed Er; inversion Ed; inversion Er; subst. fp_done. }
+      rewrite (dest_parent_test_generated fixed _ s0 f _ np G eq_refl (source_contained_rel s0 f W0 Ps)),
+              (dest_parent_test_generated fixed _ (w_fs wr) f _ np G eq_refl (source_contained_rel (w_fs wr) f (sim_wf _ _ S) (plain_rel_transfer _ _ _ _ (sim_skel _ _ S) Ps))).
       rewrite (parents_contained_rel s0 f np W0 Pd), (parents_contained_rel (w_fs wr) f np (sim_wf _ _ S) Pd').
       rewrite (source_contained_rel s0 f W0 Ps),
               (source_contained_rel (w_fs wr) f (sim_wf _ _ S) (plain_rel_transfer _ _ _ _ (sim_skel _ _ S) Ps)).
